@@ -285,6 +285,51 @@ def _drop_dangling_else(group, prev_code_line):
     return group[:k] + group[e:]
 
 
+def detect_renames(golden_lines, current_lines):
+    """local names that were consistently renamed between the golden and the current extraction: {old: new}.
+    Evidence: lines replaced one-for-one whose token sequences differ only in identifier tokens; a name counts only if it always maps
+    to the same new name, the new name does not occur in the golden text and the old name no longer occurs in the current text."""
+    from . import rtok
+    cand = {}
+    sm = difflib.SequenceMatcher(None, golden_lines, current_lines, autojunk=False)
+    for tag, i1, i2, j1, j2 in sm.get_opcodes():
+        if tag != 'replace' or (i2 - i1) != (j2 - j1):
+            continue
+        for d in range(i2 - i1):
+            try:
+                tg = [t for t in rtok.tokenize(golden_lines[i1 + d]) if t[0] != 'ws']
+                tc = [t for t in rtok.tokenize(current_lines[j1 + d]) if t[0] != 'ws']
+            except Exception:
+                continue
+            if len(tg) != len(tc):
+                continue
+            pairs = [(a, b) for a, b in zip(tg, tc) if a != b]
+            if not pairs or not all(a[0] == 'id' and b[0] == 'id' for a, b in pairs):
+                continue
+            for a, b in pairs:
+                cand.setdefault(a[1], set()).add(b[1])
+
+    def idents(lines):
+        out = set()
+        for l in lines:
+            try:
+                out |= {t[1] for t in rtok.tokenize(l) if t[0] == 'id'}
+            except Exception:
+                pass
+        return out
+    gid, cid = idents(golden_lines), idents(current_lines)
+    return {a: next(iter(bs)) for a, bs in cand.items() if len(bs) == 1 and next(iter(bs)) not in gid and a not in cid}
+
+
+def apply_renames(text, renames):
+    from . import rtok
+    try:
+        toks = rtok.tokenize(text)
+    except Exception:
+        return text
+    return ''.join(renames.get(t[1], t[1]) if t[0] == 'id' else t[1] for t in toks)
+
+
 def weave_region(region, golden_lines, current_lines, drop_level=0):
     """returns list of (text, kind, origin) with kind in {'code','contract'}.
     drop_level (changed regions only, used after a front-end rejection of the plain weave):
@@ -312,6 +357,11 @@ def weave_region(region, golden_lines, current_lines, drop_level=0):
             if tag == 'equal':
                 for d in range(i2 - i1):
                     eq_map[i1 + d] = j1 + d
+    renames = detect_renames(golden_lines, current_lines) if changed else {}
+    region.renames = renames
+    if renames:
+        # a consistently renamed local: the contract lines follow the rename (alpha-renaming of a local changes no behaviour)
+        groups = [[(apply_renames(t, renames), origin) for (t, origin) in g] for g in groups]
     by_pos = {}
     # the fn body starts at the first golden line that is a lone `{` (rule R13)
     body_open = None
@@ -410,6 +460,9 @@ class Woven:
                 raise WeaveError('no golden extraction for region %s (run `vf golden %s`)' % (region.key, unit.name))
             woven = weave_region(region, g['lines'], cur_lines, drop_level)
             self.dropped_groups += getattr(region, 'dropped_groups', 0)
+            if getattr(region, 'renames', None):
+                self.renames = getattr(self, 'renames', {})
+                self.renames[region.key] = region.renames
             for (t, kind, origin) in woven:
                 emit(t, kind, origin)
             cur, cur_label = None, ''
